@@ -4,10 +4,10 @@ import json, sys
 
 CHECKS = {
  "C01": dict(tech="runtime monitoring: admission-check oracle over recorded parse/extend histories",
-   text="Every source document of every generated history (exhaustive tiny histories, seeded random histories incl. wide/deep/long-list/many-document profiles, exhaustive occurrence patterns (absent/once/twice per child over up to 5-6 occurrences), deterministic threshold families around powers of two, steps on fresh threads, rejected parses beforehand; quick ~0.9M, thorough ~6M) is walked against the schema extracted from the rendered structs: each attribute/child has a field, non-Option fields are present in every occurrence, non-Vec children occur at most once, character data only where a text field or String typing exists. Held-on-observed-executions, not a proof.",
+   text="Every source document of every generated history (exhaustive tiny histories, seeded random histories incl. wide/deep/long-list/many-document profiles, exhaustive occurrence patterns (absent/once/twice per child over up to 5-6 occurrences), deterministic threshold families around powers of two, magnitude families at decimal round numbers and seeded log-uniform sizes, steps on fresh threads, rejected parses beforehand, renderings between the steps, reader faults (io::Error injected at seeded byte offsets: Err or the fault-free schema); quick ~0.9M, thorough ~6M) is walked against the schema extracted from the rendered structs: each attribute/child has a field, non-Option fields are present in every occurrence, non-Vec children occur at most once, character data only where a text field or String typing exists. Held-on-observed-executions, not a proof.",
    note="Trusts the AST serializer (ground truth is the generated AST, not a parse), the line-grammar extractor of the rendered text and quick-xml 0.37.5's default reader.", ref="4/C01"),
  "C03": dict(tech="runtime monitoring: history + executable reference model (equality oracle)",
-   text="The canonical schema extracted from the rendered output (and the Element tree API) is compared for equality with an independent ~60-line reference inference computed from the document ASTs, on exhaustive tiny histories and seeded random histories.",
+   text="The canonical schema extracted from the rendered output (and the Element tree API) is compared for equality with an independent ~60-line reference inference computed from the document ASTs, on exhaustive tiny histories and seeded random histories (incl. threshold and magnitude families, renderings between the steps, and io::Error faults injected into the reader at seeded byte offsets: the call must return Err or exactly the fault-free schema).",
    note="Trusts the reference inference as the reading of the statement (whitespace-only text counts as a text node; the root always gets a struct).", ref="4/C03"),
  "C04": dict(tech="runtime monitoring: output parsed as Rust (syn) + identifier rules + def/use graph over adversarial name workloads",
    text="Each rendering (sorted and unsorted) of histories over adversarial name pools is parsed by a strict line grammar and by syn; struct/field identifier legality, keyword-freedom, uniqueness, String/Option/Vec shadowing, defined types and exactly-once use are asserted. Duplicate struct names are classified by cause from the input; two causes are listed known findings, any other cause raises.",
@@ -22,19 +22,19 @@ CHECKS = {
    text="merge_necessity is called on every ordered pair of duplicate-free tagged lists over an alphabet of 5 (quick, 40M pairs) / 6 (thorough, 5.8G pairs), element types u8/String/&str, plus random lists to length 12 and long lists (to 520 items; u16, long Strings, a key-only PartialEq type); result compared for equality with a 15-line reference (membership, conjunction of necessity, stable order).",
    note="Exhaustive within the alphabet bound only; larger lists are sampled.", ref="4/C15", exhaustive=True),
  "C16": dict(tech="runtime monitoring: operation histories stepped in lock-step with an ordered-map model, invariant + rendering compared after every operation",
-   text="All sequences of 4 (quick) / 5 (thorough) operations over 22 public construction operations (incl. cut/paste of previously used elements; names a, b, type, d, ns:e, F, text) plus random sequences up to length 40; after every step children()/get_child()/remove_child()/standalone()/text and the rendered fields are compared with the model, and the rendering goes through the C04 well-formedness checker.",
+   text="All sequences of 4 (quick) / 5 (thorough) operations over 22 public construction operations (incl. cut/paste of previously used elements; names a, b, type, d, ns:e, F, text) plus random sequences up to length 40 and wide parents (2..300 children, thorough to 1500, then random add/add-again/mark-optional/remove/lookup); after every step children()/get_child()/remove_child()/standalone()/text and the rendered fields are compared with the model, and the rendering goes through the C04 well-formedness checker.",
    note="Attributes are observable only through rendering; fields are compared as sets because order is not claimed for hand-built trees.", ref="4/C16", exhaustive=True),
  "C07": dict(tech="runtime monitoring: hostile byte workloads in journalled child processes with catch_unwind, exit-status and no-progress monitors; valgrind memcheck slice in thorough",
-   text="1.6M (quick) / 64M (thorough) hostile inputs x reader kinds x all 128 reader configurations, through into_struct, extend_struct and to_serde_struct under presets and hostile option strings; a panic is caught per call, a dead or wedged process is pinned to its case through a journal and confirmed by re-running that case alone three times; nesting ladders to depth 200 on a 2 MiB stack. Thorough adds a valgrind memcheck slice.",
+   text="1.6M (quick) / 64M (thorough) hostile inputs x reader kinds x all 128 reader configurations, through into_struct, extend_struct and to_serde_struct under presets and hostile option strings; a panic is caught per call, a dead or wedged process is pinned to its case through a journal and confirmed by re-running that case alone three times; nesting ladders to depth 200 on a 2 MiB stack; one case in eight is also parsed through a reader that reports an io::Error at a seeded offset. Thorough adds a valgrind memcheck slice.",
    note="Optimized harness with debug assertions and overflow checks; depth > 200 and inputs > 64 KiB not claimed; watchdog firings that do not reproduce are inconclusive, not violations.", ref="4/C07"),
  "C08": dict(tech="runtime monitoring: verdict of into_struct/extend_struct compared with an independent flat pass over the same reader events",
-   text="1.6M (quick) / 48M (thorough) damaged and valid inputs, default reader configuration, every buffered reader kind; Ok/Err must agree with the first fault found by a second reader of the same kind (reader error, attribute error, non-UTF-8 name/key/text, no element), and a syntax error must come back as the variant carrying the reader's error and one of its two positions. The evidence holds the histogram of expected verdict classes.",
+   text="1.6M (quick) / 48M (thorough) damaged and valid inputs, default reader configuration, every buffered reader kind; Ok/Err must agree with the first fault found by a second reader of the same kind (reader error, attribute error, non-UTF-8 name/key/text, no element), and a syntax error must come back as the variant carrying the reader's error and one of its two positions. The evidence holds the histogram of expected verdict classes. An error of the underlying reader that is not a syntax error is injected as well: well-formed histories supplied through a BufRead that reports an io::Error (seven kinds once or for good, Interrupted once) at seeded byte offsets must give Err, or Ok with the byte-identical fault-free rendering; a fault that never clears before the root ends must give Err.",
    note="Trusts quick-xml's own event stream as the definition of a syntax error; error variants other than the syntax-error one are not constrained.", ref="4/C08"),
  "C05": dict(tech="runtime monitoring: repeated execution under fresh hash seeds, threads and processes with byte-equality oracle; canary HashMap proves iteration orders varied",
    text="Each history (collision-heavy profile) is parsed and rendered 40 (quick) / 64 (thorough) more times in-process, by 4 threads (independent runs and concurrent rendering of one shared tree) and by 3 / 8 fresh processes; all bytes must be equal. A canary HashMap with the same keys records that >= 2 iteration orders were actually seen; a run with too few such cases is inconclusive.",
    note="Determinism across repetitions observed, not proved; relies on std RandomState giving each HashMap a fresh key.", ref="4/C05"),
  "C06": dict(tech="runtime monitoring: algebraic laws over extension histories (permutation, idempotence, neutral inputs, monotonicity per step, equivalence with batch reference inference, failed extension => Err)",
-   text="For each history of 2..6 documents: canonical schema after every step is monotone, final schema equals the reference inference of the union, every permutation (k<=4) / sampled permutations give the same schema, a document supplied twice changes nothing, element-less inputs change no byte, and a damaged extension (fault confirmed by the C08 oracle) returns Err.",
+   text="For each history of 2..6 documents: canonical schema after every step is monotone, final schema equals the reference inference of the union, every permutation (k<=4) / sampled permutations give the same schema, a document supplied twice changes nothing, element-less inputs change no byte, a damaged extension (fault confirmed by the C08 oracle) returns Err, and an extension through a reader that reports an io::Error at a seeded offset returns Err or exactly the fault-free union schema.",
    note="Identifiers/struct names/order are deliberately outside the compared schema.", ref="4/C06"),
  "C10": dict(tech="runtime monitoring: metamorphic relation between renderings of one tree (sentinel-substitution byte-equality oracle)",
    text="Every tree is rendered with private-use sentinel strings and then with presets, hostile random option strings and a prefix aimed at prefix+name == identifier; each output must equal the sentinel rendering with the three strings substituted (derive dropped when empty, attribute rename dropped exactly when bound name equals identifier). Presets and the derive builder are compared with the literals they stand for.",
